@@ -15,6 +15,9 @@ with an in-memory origin.  Time is counted in ticks of 1/16 s (exact in binary f
   ["data", t, kind]     response bytes for t arrive: kind = "part" (inside the current unit: mid-line in the
                         head, mid-chunk in the body), "head" (rest of the head), "big" (body bytes beyond the
                         read buffer high-water mark), "end" (rest of the body)
+                        a 4th element {"inject": k} creates the task INSIDE the loop run of the preceding stimulus,
+                        just before its k-th busy iteration (a request arriving while another one is processing
+                        its cancellation / timeout)
   ["read", t]           the caller of t starts `await resp.read()`
   ["cancel", t]         task.cancel() of the caller of t
 After every stimulus the loop runs until nothing is ready (quiescence) and an abstract snapshot of
@@ -207,6 +210,8 @@ class World:
         self.eff_total: dict = {}
         self.limit = limit
         self.iter_hook = None         # called before every loop iteration (cancel sweep)
+        self.inject = None            # (k, start stimulus): start that request before the k-th busy iteration
+        self.inject_count = 0
         self.iterations = 0
 
         async def mk():
@@ -227,6 +232,11 @@ class World:
         try:
             for _ in range(max_iters):
                 busy = bool(loop._ready) or bool(loop._scheduled and loop._scheduled[0]._when <= loop.vtime)
+                if self.inject is not None and busy:
+                    if self.inject_count >= self.inject[0]:
+                        st, self.inject = self.inject[1], None
+                        self._start(st)           # lands in the ready queue behind what is already scheduled
+                    self.inject_count += 1
                 if self.iter_hook is not None and busy:
                     self.iter_hook(self.iterations)
                     busy = True
@@ -308,6 +318,27 @@ class World:
             if isinstance(e, asyncio.CancelledError):
                 raise
 
+    def _start(self, st):
+        t, cfg = st[1], st[2]
+        if t in self.tasks:
+            return
+        self.cfg[t] = cfg
+        self.gate[t] = asyncio.Event()
+        self.started_at[t] = self.tick()
+        task = self.loop.create_task(self._client(t, cfg))
+        self.tasks[t] = task
+        self.tid_of[task] = t
+
+    def apply_pair(self, st, nxt):
+        """Apply st, starting the request of `nxt` (a start stimulus with {"inject": k}) INSIDE the loop run of st:
+        just before its k-th busy iteration, i.e. in the same iteration as / right behind the callbacks st
+        triggered (a request arriving while another one is processing its cancellation or timeout)."""
+        self.inject, self.inject_count = (nxt[3]["inject"], nxt), 0
+        self.apply(st)
+        if self.inject is not None:               # the loop went idle earlier: start it now
+            self.inject = None
+            self.apply(nxt)
+
     # -- stimuli
     def apply(self, st):
         op = st[0]
@@ -315,15 +346,7 @@ class World:
             self.advance(st[1])
             return
         if op == "start":
-            t, cfg = st[1], st[2]
-            if t in self.tasks:
-                return
-            self.cfg[t] = cfg
-            self.gate[t] = asyncio.Event()
-            self.started_at[t] = self.tick()
-            task = self.loop.create_task(self._client(t, cfg))
-            self.tasks[t] = task
-            self.tid_of[task] = t
+            self._start(st)
         elif op == "dns":
             futs, self.dns_futs = self.dns_futs, []
             for f in futs:
@@ -566,7 +589,7 @@ def parse_snap(txt, offset):
     return {"now": int(d["now"]) - offset, "acq": int(d["acq"]), "idle": int(d["idle"]), "wait": int(d["wait"]),
             "open": int(d["open"]), "created": int(d["created"]), "writers": int(d["writers"]), "lookup": int(d["lookup"]),
             "cached": int(d["cached"]), "timers": sorted(tm), "out": out,
-            "live": [] if d["live"] == "-" else [int(x) for x in d["live"].split(",")], "pcs": d["pcs"]}
+            "live": [] if d["live"] == "-" else sorted(int(x) for x in d["live"].split(",")), "pcs": d["pcs"]}
 
 
 def impl_canon(s, offset):
@@ -762,6 +785,10 @@ def brief(s):
 # --------------------------------------------------------------------------------------------
 # running one history on the implementation
 
+def is_injected(st):
+    return st[0] == "start" and len(st) > 3 and isinstance(st[3], dict) and st[3].get("inject") is not None
+
+
 def run_impl(case, follow_up=True):
     """-> (list of canonical snapshots, oracle problems)"""
     w = World(limit=case["limit"], offset=case.get("offset", 0))
@@ -769,11 +796,21 @@ def run_impl(case, follow_up=True):
     snaps = []
     closed = False
     try:
-        for st in case["history"]:
-            w.apply(st)
+        hist = case["history"]
+        i = 0
+        while i < len(hist):
+            st = hist[i]
+            nxt = hist[i + 1] if i + 1 < len(hist) else None
+            if nxt is not None and is_injected(nxt):
+                w.apply_pair(st, nxt)
+                snaps.append(None)                # the model applies the two stimuli one after the other
+                i += 1
+            else:
+                w.apply(st)
             s = w.snapshot()
             orc.check(s, st)
             snaps.append(impl_canon(s, w.offset))
+            i += 1
         if follow_up:
             closed = True
             orc.finish()
@@ -812,9 +849,19 @@ def gen_history(rng, nreq, limit, offset, steps):
     parts: dict = {}
     big: set = set()
     try:
-        def do(st):
+        def do(st, gap=False):
+            nonlocal started
             hist.append(st)
-            w.apply(st)
+            if gap and limit == 0 and started < nreq and rng.random() < 0.45:
+                # a new request arrives in the very loop iterations in which st's cancellation / timeout is processed
+                # (only without a pool limit: with one, the newcomer may legitimately take the freed slot before the
+                # woken waiter runs, an interleaving below the model's granularity)
+                nxt = ["start", started, gen_cfg(rng), {"inject": rng.choice([0, 0, 1, 1, 2, 3])}]
+                started += 1
+                hist.append(nxt)
+                w.apply_pair(st, nxt)
+            else:
+                w.apply(st)
         for _ in range(steps):
             opts = []
             live = [t for t, task in w.tasks.items() if not task.done()]
@@ -862,14 +909,17 @@ def gen_history(rng, nreq, limit, offset, steps):
                 r = rng.random()
                 nt = [x for x, _ in w.snapshot()["timers"]]
                 now = w.tick()
+                exact = False
                 if nt and r < 0.45:
                     tgt = min(nt)
-                    d = max(0, int(round(tgt)) - now + rng.choice([-1, 0, 0, 1]))
+                    j = rng.choice([-1, 0, 0, 1])
+                    d = max(0, int(round(tgt)) - now + j)
+                    exact = j == 0 and d == int(round(tgt)) - now
                 elif r < 0.8:
                     d = rng.choice([1, 1, 2, 3, 5, 8])
                 else:
                     d = rng.choice([16, 33, 64, 160])
-                do(["adv", d])
+                do(["adv", d], gap=exact)        # lands exactly on the earliest deadline: the timer fires in this run
             elif o[0] == "data":
                 t, k = o[1], o[2]
                 if k == "part":
@@ -879,7 +929,7 @@ def gen_history(rng, nreq, limit, offset, steps):
                     big.add(t)
                 do(["data", t, k])
             else:
-                do(list(o))
+                do(list(o), gap=o[0] == "cancel")
     finally:
         w.close()
     return hist
@@ -900,6 +950,8 @@ def compare_case(ctx, case, suite, m_txt):
     m_parts = m_txt.split(" | ")[1:] if m_txt is not None else []   # drop the snapshot of the leading offset advance
     first_bad = None
     for i, s in enumerate(snaps if m_txt is not None else []):
+        if s is None:
+            continue
         if i >= len(m_parts) or m_parts[i].startswith(("STUCK", "EXN", "BADREQ")):
             first_bad = (i, m_parts[i] if i < len(m_parts) else "<missing>", s)
             break
@@ -912,7 +964,7 @@ def compare_case(ctx, case, suite, m_txt):
         i, mo, io = first_bad
         ctx.disagreement(suite, {"suite": suite, "limit": case["limit"], "offset": off,
                                  "history": case["history"][: i + 1]}, mo, io)
-    ended = [v[0] for v in (snaps[-1]["out"].values() if snaps else [])]
+    ended = [v[0] for v in (snaps[-1]["out"].values() if snaps and snaps[-1] else [])]
     nontrivial = any(k != "ok" for k in ended)
     ctx.case((json.dumps(case, sort_keys=True), json.dumps(snaps[-1] if snaps else None, sort_keys=True)), nontrivial=nontrivial)
     for k in ended:
@@ -925,6 +977,38 @@ def compare_case(ctx, case, suite, m_txt):
     return snaps, problems
 
 
+def lookup_gap_cases():
+    """The request that started the shared DNS lookup is cancelled / times out (connect, total; rounded or not)
+    and a new request to the same host arrives before the k-th loop iteration of that processing, with or
+    without an earlier joiner of the lookup.  The newcomer (and the joiner) must be served."""
+    def cfg(**kw):
+        c = {"total": None, "connect": None, "sock_connect": None, "sock_read": None, "thr": 80, "block": False, "plain": False}
+        c.update(kw)
+        return c
+    out = []
+    for mode, ca, T in (("cancel", cfg(total=300), None), ("connect", cfg(connect=20), 20), ("connect", cfg(connect=100), 100),
+                        ("total", cfg(total=20), 20), ("total", cfg(total=90), 90)):
+        for off in (0, 5):
+            for k in (0, 1, 2, 3, 4):
+                for joiner in (False, True):
+                    h = [["start", 0, ca]]
+                    if joiner:
+                        h.append(["start", 2, cfg(total=600)])
+                    if mode == "cancel":
+                        h += [["adv", 3], ["cancel", 0]]
+                    else:
+                        d = off + T
+                        if T > 80 or (mode == "total" and T >= 80):
+                            d = ceil_tick(d)
+                        h.append(["adv", d - off])
+                    h.append(["start", 1, cfg(total=600), {"inject": k}])
+                    h += [["adv", 1], ["dns"], ["conn", 1], ["data", 1, "head"], ["read", 1], ["data", 1, "end"]]
+                    if joiner:
+                        h += [["conn", 2], ["data", 2, "head"], ["read", 2], ["data", 2, "end"]]
+                    out.append({"suite": "histories", "limit": 0, "offset": off, "history": h, "systematic": "lookup_gap"})
+    return out
+
+
 def suite_histories(ctx, exe):
     rng = ctx.rng
     cases = []
@@ -933,6 +1017,7 @@ def suite_histories(ctx, exe):
         c = c.get("case", c)
         if c.get("suite", "histories") == "histories":
             cases.append(c)
+    cases += lookup_gap_cases()
     n = 0 if os.environ.get("C18_CORPUS_ONLY") else (2500 if ctx.quick else 30000)
     for _ in range(n):
         limit = rng.choice([0, 0, 1, 1, 2])
